@@ -151,7 +151,13 @@ def generate(tape, tier="quick"):
             # a source with an open (flexible) mask that delivers plain arrays first and a masked array later: the
             # adapter's precomputed indices are for all source points, so it has to refuse - or to deliver the nearest
             # UNMASKED value anyway; never a value from another location
-            "late_mask": tape.chance(1, 5)}
+            "late_mask": tape.chance(1, 5),
+            # a second consumer on the same target geometry in the other memory order, declared with the very same mask
+            # array object, is coupled through an adapter of its own and served first
+            "twin_target": tape.chance(1, 4),
+            # a second consumer with the same target grid and mask specification reads the SAME adapter object (regridding
+            # adapters may branch): both get the regridded field
+            "fanout_at_adapter": tape.chance(1, 5)}
 
 
 def locations(sp, G):
@@ -259,8 +265,27 @@ def execute(sc):
         ad = RegridLinear(fill_with_nearest=sc["method"] == "linear_fill", **kw)
     out >> ad >> inp
     inp.ping()
+    inp2 = None
+    if sc.get("twin_target") and dsp["type"] in ("uniform", "rectilinear") and (ctor_mask or sc["dmask"] == "partial"):
+        try:
+            GD2 = make_grid(dict(dsp, order="C" if dsp["order"] == "F" else "F"))
+            inp2 = Input(name="twin", info=Info(time=dt(0), grid=GD2, units="m", mask=cons_mask))
+            ad2 = RegridNearest(**kw) if sc["method"] == "nearest" else \
+                RegridLinear(fill_with_nearest=sc["method"] == "linear_fill", **kw)
+            out >> ad2 >> inp2
+            inp2.ping()
+            inp2.exchange_info()
+        except Exception:      # noqa: BLE001   (the twin is not what is judged here)
+            inp2 = None
+    inp3 = None
+    if sc.get("fanout_at_adapter"):
+        inp3 = Input(name="dst2", info=Info(time=dt(0), grid=GD, units="m", mask=cons_mask))
+        ad >> inp3
+        inp3.ping()
     try:
         inp.exchange_info()
+        if inp3 is not None:
+            inp3.exchange_info()
     except Exception as e:
         # target mask not covered by the interpolation domain etc. are legitimate refusals of RegridLinear
         if sc["method"] == "linear" and type(e).__name__ in ("FinamDataError", "FinamMetaDataError") and \
@@ -297,7 +322,19 @@ def execute(sc):
             payload = np.ma.array(data.reshape(sshape, order=sorder), mask=lm_flat.reshape(sshape, order=sorder), shrink=False)
         try:
             out.push_data(payload, dt(k))
+            if inp2 is not None:
+                try:
+                    inp2.pull_data(dt(k))
+                except Exception:      # noqa: BLE001
+                    pass
             got = inp.pull_data(dt(k)).magnitude
+            if inp3 is not None:
+                got3 = inp3.pull_data(dt(k)).magnitude
+                if got3.shape != got.shape or not np.array_equal(np.ma.getmaskarray(got3), np.ma.getmaskarray(got)) or \
+                        not np.array_equal(np.ma.getdata(got3)[~np.ma.getmaskarray(got3)], np.ma.getdata(got)[~np.ma.getmaskarray(got)]):
+                    v("regrid-nearest" if sc["method"] == "nearest" else "regrid-linear", "fanout",
+                      f"publication {k}: two consumers of one regridding adapter received different fields; {short(sc)}")
+                    break
         except FinamDataError as e:
             if late:
                 break           # refused: masked data under an open source mask
@@ -384,5 +421,7 @@ def res(sc, viol, nd, ran):
     cls = f"{sc['method']}:{sc['src']['type']}->{sc['dst']['type']}"
     return {"violations": viol, "digest": digest_of(sc), "nontrivial": nt,
             "probes": {"links_between_reference_systems": int(bool(sc.get("crs_pair"))),
-                       "reprojected_targets_over_1024": int(bool(sc.get("crs_pair")) and nd > 1024)}, "faults": {}, "sig": cls,
+                       "reprojected_targets_over_1024": int(bool(sc.get("crs_pair")) and nd > 1024),
+                       "twin_target_requested": int(bool(sc.get("twin_target"))),
+                       "two_consumers_at_one_regrid_adapter": int(bool(sc.get("fanout_at_adapter")))}, "faults": {}, "sig": cls,
             "cls": cls, "sim_hours": sc["npub"], "outcome": {"class": cls, "targets": nd}}
